@@ -1289,6 +1289,264 @@ func (s *c10seq1) randomOps1(rng *Rng, cfg c10cfg1) {
 	}
 }
 
+// ---------------------------------------------------------------------------------------------
+// first generation, liquidated borrows (x/auction/keeper/dutch_lend.go + x/liquidation/keeper/liquidate_borrow.go)
+// ---------------------------------------------------------------------------------------------
+
+type c10seqL struct {
+	*c10seq
+	mapID uint64
+}
+
+func (s *c10seqL) auctionL() (auctiontypes.DutchAuction, bool) {
+	a, err := s.f.app.AuctionKeeper.GetDutchLendAuction(s.ctx, s.f.appID, s.mapID, s.aucID)
+	return a, err == nil
+}
+
+func (s *c10seqL) lendResDebt() sdk.Int {
+	r := s.f.app.AccountKeeper.GetModuleAddress(lendtypes.ModuleName)
+	return s.f.app.BankKeeper.GetBalance(s.ctx, r, s.p.debt.denom).Amount
+}
+
+func (s *c10seqL) stateL() string {
+	rec := "closed"
+	if a, ok := s.auctionL(); ok {
+		rec = fmt.Sprintf("out=%s;in=%s;price=%s;init=%s;endp=%s;inp=%s;start=%d;end=%d", a.OutflowTokenCurrentAmount.Amount, a.InflowTokenCurrentAmount.Amount,
+			c10raw(a.OutflowTokenCurrentPrice), c10raw(a.OutflowTokenInitialPrice), c10raw(a.OutflowTokenEndPrice), c10raw(a.InflowTokenCurrentPrice), a.StartTime.Unix(), a.EndTime.Unix())
+	}
+	var sb []string
+	for _, n := range c10names {
+		a := s.acct(n)
+		if n == "auction" {
+			a = s.f.app.AccountKeeper.GetModuleAddress(auctiontypes.ModuleName)
+		}
+		c := s.f.app.BankKeeper.GetBalance(s.ctx, a, s.p.coll.denom).Amount
+		d := s.f.app.BankKeeper.GetBalance(s.ctx, a, s.p.debt.denom).Amount
+		if n == "pool" {
+			r := s.f.app.AccountKeeper.GetModuleAddress(lendtypes.ModuleName)
+			c = c.Add(s.f.app.BankKeeper.GetBalance(s.ctx, r, s.p.coll.denom).Amount)
+			d = d.Add(s.f.app.BankKeeper.GetBalance(s.ctx, r, s.p.debt.denom).Amount)
+		}
+		sb = append(sb, n+":"+c.String()+":"+d.String())
+	}
+	return rec + "\t" + strings.Join(sb, ",") + "\t" + fmt.Sprintf("next=%d", s.f.app.AuctionKeeper.GetLendAuctionID(s.ctx))
+}
+
+type c10cfgL struct {
+	dropTo uint64
+	T      uint64
+	buffer string
+	cusp   string
+	sweep  bool // after the keeper message for borrow 1 the sweep seizes borrow 2 as well (a second auction shares the module account)
+	resFund int64 // debt-denom funds of the lend reserve (lend module account): pays when the collateral is sold out below the target
+}
+
+func c10startL(t *testing.T, f *c10fix, tr *Trace, cfg c10cfgL) *c10seqL {
+	ctx, _ := f.base.CacheContext()
+	s := &c10seqL{c10seq: &c10seq{f: f, ctx: ctx, tr: tr, p: f.pairs[0], kind: "l1", now: f.t0, h: 10}, mapID: 3}
+	app := f.app
+	fail := func(why string) *c10seqL {
+		tr.Count("setupL:" + why)
+		return nil
+	}
+	if err := app.LendKeeper.AddAuctionParamsData(ctx, lendtypes.AuctionParams{AppId: f.appID, AuctionDurationSeconds: cfg.T, Buffer: c10dec(cfg.buffer), Cusp: c10dec(cfg.cusp),
+		Step: sdk.NewInt(1), PriceFunctionType: 1, DutchId: 3, BidDurationSeconds: 3600}); err != nil {
+		return fail("auction-params")
+	}
+	big := sdk.NewIntFromUint64(math.MaxInt64 / 4)
+	for _, n := range []string{"b1", "b2", "b4"} {
+		c10fund(t, app, ctx, c10addr(n), s.p.debt.denom, big)
+	}
+	c10fund(t, app, ctx, c10addr("b3"), s.p.debt.denom, sdk.NewInt(20000005))
+	if cfg.resFund > 0 {
+		c := sdk.NewCoins(sdk.NewCoin(s.p.debt.denom, sdk.NewInt(cfg.resFund)))
+		if err := app.BankKeeper.MintCoins(ctx, auctionsV2types.ModuleName, c); err != nil {
+			t.Fatal(err)
+		}
+		if err := app.BankKeeper.SendCoinsFromModuleToModule(ctx, auctionsV2types.ModuleName, lendtypes.ModuleName, c); err != nil {
+			t.Fatal(err)
+		}
+	}
+	c10setTwa(app, ctx, s.p.coll.id, cfg.dropTo, true)
+	mod := app.AccountKeeper.GetModuleAddress(auctiontypes.ModuleName)
+	before := app.BankKeeper.GetBalance(ctx, mod, s.p.coll.denom).Amount
+	idBefore := app.AuctionKeeper.GetLendAuctionID(ctx)
+	if ok, _ := c10deliver(app, ctx, &liquidationtypes.MsgLiquidateBorrowRequest{From: c10addr("keeper").String(), BorrowId: 1}); !ok {
+		return fail("liquidate-borrow-msg")
+	}
+	deposit := app.BankKeeper.GetBalance(ctx, mod, s.p.coll.denom).Amount.Sub(before)
+	s.aucID = idBefore + 1
+	a, ok := s.auctionL()
+	if !ok {
+		return fail("no-auction")
+	}
+	if cfg.sweep {
+		if err := app.LiquidationKeeper.LiquidateBorrows(ctx); err != nil {
+			return fail("sweep")
+		}
+	}
+	rates, _ := app.LendKeeper.GetAssetRatesParams(ctx, s.p.coll.id)
+	lv, _ := app.LiquidationKeeper.GetLockedVault(ctx, f.appID, a.LockedVaultId)
+	pair, _ := app.LendKeeper.GetLendPair(ctx, lv.ExtendedPairId)
+	tr.Line("dutch.l1.begin", fmt.Sprintf("decC=%d;decD=%d;target=%s;coll0=%s;deposit=%s;bonus=%s;dust=%d;T=%d;buffer=%s;cusp=%s;twaC=%d",
+		s.p.coll.dec, s.p.debt.dec, a.InflowTokenTargetAmount.Amount, a.OutflowTokenInitAmount.Amount, deposit, c10raw(rates.LiquidationBonus), pair.MinUsdValueLeft, cfg.T,
+		c10raw(c10dec(cfg.buffer)), c10raw(c10dec(cfg.cusp)), cfg.dropTo), s.stateL())
+	tr.Count("begin:l1")
+	return s
+}
+
+func (s *c10seqL) bidL(who string, amt sdk.Int) {
+	res := s.lendResDebt()
+	ok, cl := c10deliver(s.f.app, s.ctx, &auctiontypes.MsgPlaceDutchLendBidRequest{Bidder: c10addr(who).String(), AuctionId: s.aucID, Amount: sdk.Coin{Denom: s.p.coll.denom, Amount: amt},
+		AppId: s.f.appID, AuctionMappingId: s.mapID})
+	s.tr.Count("bidL:" + cl)
+	if ok {
+		if _, open := s.auctionL(); !open {
+			s.tr.Count("closeL")
+			if s.lendResDebt().LT(res) {
+				s.tr.Count("closeL:reserve-covers-sold-out")
+			}
+			if s.f.app.AuctionKeeper.GetLendAuctionID(s.ctx) > s.aucID+1 || (s.f.app.AuctionKeeper.GetLendAuctionID(s.ctx) > s.aucID && s.kind == "l1") {
+				s.tr.Count("closeL:maybe-reliquidated")
+			}
+		} else {
+			s.tr.Count("partial-fillL")
+		}
+	}
+	s.tr.Line("dutch.l1.bid", who, amt.String(), res.String(), cl, s.stateL())
+}
+
+func (s *c10seqL) tickL(dt time.Duration) {
+	s.now = s.now.Add(dt)
+	s.h++
+	s.ctx = s.ctx.WithBlockTime(s.now).WithBlockHeight(s.h)
+	tc, ac := s.collTwa()
+	td, ad := s.debtTwa()
+	app := s.f.app
+	panicked, _ := try(func() { auctionv1.BeginBlocker(s.ctx, app.AuctionKeeper, app.AssetKeeper, app.CollectorKeeper, app.EsmKeeper) })
+	cl := "ok"
+	if panicked {
+		cl = "panic"
+	}
+	b := func(x bool) string {
+		if x {
+			return "1"
+		}
+		return "0"
+	}
+	s.tr.Count("tickL:" + cl)
+	s.tr.Line("dutch.l1.tick", i64(s.now.Unix()), u(tc), b(ac), u(td), b(ad), cl, s.stateL())
+}
+
+func (s *c10seqL) randomOpsL(rng *Rng, cfg c10cfgL) {
+	bidders := []string{"b1", "b2", "b3", "b4"}
+	nops := 3 + rng.Intn(12)
+	for o := 0; o < nops; o++ {
+		a, open := s.auctionL()
+		if !open {
+			if rng.Chance(50) {
+				s.bidL(bidders[rng.Intn(4)], sdk.NewInt(int64(1+rng.Intn(1000000))))
+			} else {
+				s.tickL(time.Duration(1+rng.Intn(int(cfg.T)+5)) * time.Second)
+			}
+			if rng.Chance(60) {
+				return
+			}
+			continue
+		}
+		if rng.Intn(100) < 68 {
+			C := a.OutflowTokenCurrentAmount.Amount
+			tab := a.InflowTokenTargetAmount.Amount.Sub(a.InflowTokenCurrentAmount.Amount)
+			collFor := func(x sdk.Int) sdk.Int {
+				den := a.OutflowTokenCurrentPrice.MulInt64(s.p.debt.dec)
+				if !den.IsPositive() {
+					return C
+				}
+				return a.InflowTokenCurrentPrice.MulInt(x).MulInt64(s.p.coll.dec).Quo(den).TruncateInt()
+			}
+			var amt sdk.Int
+			switch rng.Intn(14) {
+			case 0:
+				amt = sdk.NewInt(int64(1 + rng.Intn(3)))
+				s.tr.Count("bidkindL:tiny")
+			case 1, 2:
+				amt = C
+				s.tr.Count("bidkindL:all")
+			case 3:
+				amt = C.AddRaw(1)
+				s.tr.Count("bidkindL:over")
+			case 4, 5:
+				amt = collFor(tab).AddRaw(int64(rng.Intn(5)) - 2)
+				s.tr.Count("bidkindL:target-edge")
+			case 6:
+				amt = collFor(tab).MulRaw(2)
+				s.tr.Count("bidkindL:over-target")
+			case 7:
+				du := sdk.NewDec(1000000).MulInt64(s.p.debt.dec).Quo(a.InflowTokenCurrentPrice).TruncateInt()
+				amt = collFor(tab.Sub(du)).AddRaw(int64(rng.Intn(5)) - 2)
+				s.tr.Count("bidkindL:debt-dust-edge")
+			case 8:
+				if a.OutflowTokenCurrentPrice.IsPositive() {
+					cu := sdk.NewDec(1000000).MulInt64(s.p.debt.dec).Quo(a.OutflowTokenCurrentPrice).TruncateInt()
+					amt = C.Sub(cu).AddRaw(int64(rng.Intn(5)) - 2)
+				} else {
+					amt = C
+				}
+				s.tr.Count("bidkindL:coll-dust-edge")
+			case 9:
+				amt = sdk.NewInt(-5)
+				s.tr.Count("bidkindL:negative")
+			default:
+				amt = C.MulRaw(int64(1 + rng.Intn(95))).QuoRaw(100)
+				s.tr.Count("bidkindL:partial")
+			}
+			s.bidL(bidders[rng.Intn(4)], amt)
+		} else {
+			el := int64(s.now.Sub(a.StartTime) / time.Second)
+			T := int64(cfg.T)
+			var dt int64
+			switch rng.Intn(8) {
+			case 0:
+				dt = 1
+			case 1:
+				dt = T - el
+			case 2:
+				dt = T - el - 1
+			case 3:
+				dt = T - el + 1
+				s.tr.Count("tickkindL:restart")
+			case 4:
+				dt = T/3 + 1
+			case 5:
+				dt = T + 1 + int64(rng.Intn(100))
+				s.tr.Count("tickkindL:restart")
+			default:
+				dt = 1 + int64(rng.Intn(int(T)+1))
+			}
+			if dt < 1 {
+				dt = 1
+			}
+			if rng.Chance(25) {
+				tc, _ := s.collTwa()
+				nt := tc * uint64(70+rng.Intn(41)) / 100
+				if nt == 0 {
+					nt = 1
+				}
+				s.setColl(nt, !rng.Chance(15))
+			}
+			if rng.Chance(20) {
+				td, _ := s.debtTwa()
+				nt := td * uint64(90+rng.Intn(21)) / 100
+				if nt == 0 {
+					nt = 1
+				}
+				s.setDebt(nt, !rng.Chance(15))
+			}
+			s.tickL(time.Duration(dt) * time.Second)
+		}
+	}
+}
+
 func TestC10(t *testing.T) {
 	tr := OpenTrace(t, "c10.trace")
 	defer tr.Close(t)
@@ -1410,6 +1668,29 @@ func TestC10(t *testing.T) {
 			continue
 		}
 		s.randomOps1(rng, cfg)
+	}
+
+	// ---- first generation, liquidated borrows
+	cl := c10cfgL{dropTo: 1800000, T: 3600, buffer: "1.2", cusp: "0.7"}
+	sl := c10startL(t, fl, tr, cl)
+	if sl != nil {
+		sl.bidL("b1", sdk.NewInt(1000000))
+		sl.tickL(20 * time.Minute)
+		sl.bidL("b2", sdk.NewInt(2000000000))
+		if a, ok := sl.auctionL(); ok {
+			sl.bidL("b2", a.OutflowTokenCurrentAmount.Amount)
+		}
+	}
+	nL := scale(150, 6000)
+	for i := 0; i < nL; i++ {
+		cfg := c10cfgL{dropTo: []uint64{1860000, 1800000, 1700000, 1500000, 1200000, 900000, 400000}[rng.Intn(7)],
+			T: []uint64{10, 60, 600, 3600, 21600}[rng.Intn(5)], buffer: []string{"1.2", "1.05", "1.5", "1"}[rng.Intn(4)],
+			cusp: []string{"0.7", "0.5", "0.9", "0.3"}[rng.Intn(4)], sweep: rng.Chance(40), resFund: []int64{0, 1000, 500000000, 500000000}[rng.Intn(4)]}
+		s := c10startL(t, fl, tr, cfg)
+		if s == nil {
+			continue
+		}
+		s.randomOpsL(rng, cfg)
 	}
 
 	// ---- generated sequences
